@@ -62,7 +62,13 @@ def _do_run(args):
             # every run starts from pristine process state (module-level caches, patched globals):
             # the run executes in a forked child of this (never-used) worker and reports over a pipe
             from .proc import run_child
-            msgs, code = run_child(lambda report: report({"result": mod.run_plan(plan)}),
+            from .common import configure_logging
+
+            def _go(report, _plan=plan):
+                configure_logging(_plan.get("seed", 0) if isinstance(_plan, dict) else 0)
+                report({"result": mod.run_plan(_plan)})
+
+            msgs, code = run_child(_go,
                                    timeout=getattr(mod, "RUN_TIMEOUT", 300))
             res = next((m["result"] for m in msgs if "result" in m), None)
             if res is None:
